@@ -21,7 +21,7 @@ import (
 
 func c14Stream(w *W) {
 	kind := []string{"pair", "req", "sub", "bus", "push", "pull", "rep", "star", "surveyor"}[w.Choose(simrt.SShape, 9)]
-	tran := []string{"sim", "simipc"}[w.Choose(simrt.SShape, 2)]
+	tran := []string{"sim", "simipc", "tcp", "ipc"}[w.Choose(simrt.SShape, 4)] // tcp / ipc: the real dialer code on the simulated network
 	r := []time.Duration{5 * time.Millisecond, 20 * time.Millisecond}[w.Choose(simrt.SShape, 2)]
 	M := []time.Duration{0, r, 4 * r}[w.Choose(simrt.SShape, 3)]
 	nplan := 2 + w.Choose(simrt.SShape, 6)
@@ -61,7 +61,8 @@ func c14Stream(w *W) {
 		names = append(names, fmt.Sprintf("%s/%d", st.what, st.n))
 	}
 	w.SetShape("plan", strings.Join(names, ","))
-	name := strings.TrimPrefix(w.Addr(tran), tran+"://")
+	daddr := w.Addr(tran)
+	name := NetKey(daddr)
 	l, err := nt.Listen(name)
 	if err != nil {
 		w.Failf("HARNESS/listen", "%v", err)
@@ -139,7 +140,7 @@ func c14Stream(w *W) {
 			attached++
 		}
 	})
-	d, err := s.NewDialer(tran+"://"+name, map[string]interface{}{
+	d, err := s.NewDialer(daddr, map[string]interface{}{
 		mangos.OptionReconnectTime: r, mangos.OptionMaxReconnectTime: M, mangos.OptionDialAsynch: true})
 	if err != nil {
 		s.Close()
@@ -256,7 +257,7 @@ func c14Inproc(w *W) {
 			}
 		}
 	})
-	if err := l1.Listen(addr); err != nil {
+	if err := w.ListenOn(l1, addr); err != nil {
 		w.Failf("HARNESS/listen", "%v", err)
 		return
 	}
@@ -301,7 +302,7 @@ func c14Inproc(w *W) {
 			n2++
 		}
 	})
-	if err := l2.Listen(addr); err != nil {
+	if err := w.ListenOn(l2, addr); err != nil {
 		w.Failf("C10/address-still-bound", "%s cannot be bound again after the first listener's socket was closed: %v", addr, err)
 		return
 	}
